@@ -47,6 +47,7 @@ MANIFEST = {
             'decided on the real code by driving DSD_Complex / the deprecated wrappers and ComplexS / complex_utils with the same '
             'descriptions in every rotation.',
     'note': 'is_domainlevel_complement, the name setter and the domains property of the legacy class are not modelled; the legacy model is hand-written (tied by differential runs), the wrappers and tables are translated.',
+    'source_derived': 'STATEMENT LEVEL, FROM THE SOURCE (since batch 7): translator/pylegacy.py transcribes 15 methods of the legacy DSD_Complex from the working tree (Gen/PyLegacy.lean); PyLegacy.py_rotate_once_eq, py_size_eq, py_strand_length_eq, py_pair_table_eq, py_get_paired_loc_eq, py_loop_index_eq, py_get_loop_index_eq, py_is_connected_eq, py_get_domain_eq ... prove them equal to the statement-level model in every object state (result, state afterwards, error kind), py_legacy_rotate_once_eq_current compares the translated legacy rotate_once with the translated current rotate_complex_once with no model in the statement; stream DSD_Complex-methods.source-derived.',
     'technique': 'Lean 4 statement-level model of the legacy class proved equivalent to the current API model; decide over legacy tables and wrapper delegations regenerated from source; differential exploration of legacy vs current API on the real code',
 }
 
